@@ -149,54 +149,31 @@ Theorem C13_returned_object_made_for_key : forall nc progs sched t r o,
 Proof. exact returned_object_made_for_key. Qed.
 Print Assumptions C13_returned_object_made_for_key.
 
-(** * The key  f'{parent}+{name}' if parent else name
+(** * The key  (f'{parent}' if parent else None, name)
 
-    Full statement (FALSE of the code as it is):
-      C13_key_injective : forall r r', key_of r = key_of r' -> norm_req r = norm_req r'
-      C13_no_cross_talk : forall progs sched t r o, In (ERet t r o) (log st) ->
-                          exists t' r', In (ECreated t' r' o) (log st) /\ norm_req r' = norm_req r *)
-Theorem C13_key_injective_refuted :
-  (exists r r', norm_req r <> norm_req r' /\ key_of r = key_of r') /\
-  key_of (Some "/x", "a+b") = key_of (Some "/x+a", "b") /\
-  key_of (None, "q+r") = key_of (Some "q", "r").
-Proof. split; [exact key_injective_refuted|split; reflexivity]. Qed.
-Print Assumptions C13_key_injective_refuted.
-
-Theorem C13_no_cross_talk_refuted :
-  exists progs sched t r o,
-    let st := reach false progs sched in
-    In (ERet t r o) (log st) /\
-    forall t' r', In (ECreated t' r' o) (log st) -> norm_req r' <> norm_req r.
-Proof. exact no_cross_talk_refuted. Qed.
-Print Assumptions C13_no_cross_talk_refuted.
-
-(** proved when no name contains '+' (parents arbitrary), or when every parent is
-    non-empty and '+'-free (names arbitrary) *)
-Theorem C13_key_injective_partial : forall r r',
-  (name_plus_free r = true /\ name_plus_free r' = true) \/
-  (parent_plus_free r = true /\ parent_plus_free r' = true) ->
+    Requests are compared modulo [norm_req]: a falsy parent ([None] or [""]) is "no parent"
+    to the key and to every consumer ([if parent:]), so [(None, n)] and [(Some "", n)] are
+    the same request.  Modulo exactly that, the key is injective ... *)
+Theorem C13_key_injective : forall r r',
   key_of r = key_of r' -> norm_req r = norm_req r'.
-Proof. exact key_injective_partial. Qed.
-Print Assumptions C13_key_injective_partial.
+Proof. exact key_injective. Qed.
+Print Assumptions C13_key_injective.
 
-(** distinct requests never receive each other's object, on any set [P] of requests on
-    which the key is injective ... *)
-Theorem C13_no_cross_talk_partial : forall P nc progs sched t r o,
-  key_inj_on P -> Forall (Forall (op_sat P)) progs ->
+(** ... (and not finer than the normalisation: same request, same key) ... *)
+Theorem C13_key_complete : forall r r',
+  norm_req r = norm_req r' -> key_of r = key_of r'.
+Proof. exact key_complete. Qed.
+Print Assumptions C13_key_complete.
+
+(** ... so distinct requests never receive each other's object: for every program, every
+    schedule, with or without caching, what a request is handed was made by a creator
+    invoked for that same request *)
+Theorem C13_no_cross_talk : forall nc progs sched t r o,
   let st := reach nc progs sched in
   In (ERet t r o) (log st) ->
   exists t' r', In (ECreated t' r' o) (log st) /\ norm_req r' = norm_req r.
-Proof. exact no_cross_talk_partial. Qed.
-Print Assumptions C13_no_cross_talk_partial.
-
-(** ... such as these two *)
-Theorem C13_key_inj_on_plus_free_names : key_inj_on name_plus_free.
-Proof. exact key_inj_names. Qed.
-Print Assumptions C13_key_inj_on_plus_free_names.
-
-Theorem C13_key_inj_on_plus_free_parents : key_inj_on parent_plus_free.
-Proof. exact key_inj_parents. Qed.
-Print Assumptions C13_key_inj_on_plus_free_parents.
+Proof. exact no_cross_talk. Qed.
+Print Assumptions C13_no_cross_talk.
 
 (** * pypyr.moduleloader.add_sys_path: for every schedule, each directory is appended to
       sys.path at most once, and never when it was already there; its lock is a mutex *)
@@ -227,7 +204,7 @@ Example C13_race_nonvacuous :
     [EAcq 0; ECall 0 ka; ECreated 0 ka 0%Z; EStore 0 ka 0%Z; ERel 0; ERet 0 ka 0%Z; EAcq 1;
      ELoad 1 ka 0%Z; ERel 1; ERet 1 ka 0%Z]
   /\ holds (threads (reach false race_progs [0; 1; 0; 1; 1; 0]) 0) = true
-  /\ creating (threads (reach false race_progs [0; 1; 0; 1; 1; 0]) 0) "a" = true
+  /\ creating (threads (reach false race_progs [0; 1; 0; 1; 1; 0]) 0) (key_of ka) = true
   /\ tpc (threads (reach false race_progs [0; 1; 0; 1; 1; 0]) 1) = PAcquire.
 Proof. vm_compute. repeat split. Qed.
 
@@ -252,21 +229,23 @@ Example C13_fail_clear_nonvacuous :
      ECall 0 kb; ECreated 0 kb 2%Z; ERet 0 kb 2%Z].
 Proof. vm_compute. repeat split. Qed.
 
-Example C13_partial_nonvacuous :
-  Forall (Forall (op_sat name_plus_free)) race_progs /\
-  Forall (Forall (op_sat name_plus_free)) fail_progs /\
-  Forall (Forall (op_sat parent_plus_free)) [[OGet (Some "/x", "a+b") true]] /\
+Example C13_transparent_nonvacuous :
   Forall (Forall (fun o => op_ok (fun _ => true) o = true)) race_progs /\
-  name_plus_free (Some "/x+a", "b") = true /\ name_plus_free (Some "/x", "a+b") = false.
-Proof. repeat split; repeat constructor. Qed.
+  norm_req (Some "", "n") = norm_req (None, "n") /\
+  norm_req (Some "/x", "a+b") <> norm_req (Some "/x+a", "b").
+Proof. repeat split; repeat constructor. discriminate. Qed.
 
-(** the collision, end to end: the second request never runs its creator and is handed
-    the first request's object *)
-Example C13_collision_nonvacuous :
+(** the requests that collided under the old key f'{parent}+{name}' now have distinct
+    keys, each runs its own creator and gets its own object *)
+Example C13_former_collision_nonvacuous :
+  key_of (Some "/x", "a+b") <> key_of (Some "/x+a", "b") /\
+  key_of (None, "q+r") <> key_of (Some "q", "r") /\
   filter op_level (model_log false collide_progs collide_sched) =
     [ECall 0 (Some "/x", "a+b"); ECreated 0 (Some "/x", "a+b") 0%Z; ERet 0 (Some "/x", "a+b") 0%Z;
-     ERet 0 (Some "/x+a", "b") 0%Z].
-Proof. vm_compute. reflexivity. Qed.
+     ECall 0 (Some "/x+a", "b"); ECreated 0 (Some "/x+a", "b") 1%Z; ERet 0 (Some "/x+a", "b") 1%Z;
+     ECall 0 (None, "q+r"); ECreated 0 (None, "q+r") 2%Z; ERet 0 (None, "q+r") 2%Z;
+     ECall 0 (Some "q", "r"); ECreated 0 (Some "q", "r") 3%Z; ERet 0 (Some "q", "r") 3%Z].
+Proof. vm_compute. repeat split; discriminate. Qed.
 
 (** three threads add the same two directories; "/d2" is already on sys.path *)
 Example C13_sys_path_nonvacuous :
